@@ -29,7 +29,7 @@ class Check(FormulaCheck):
             'from {0,+-1,+-11,+-12,+-13,+-1200,+-120000} and random ones. Dates: boundary years around leap/century rules plus random (quick); every valid date '
             '1900-9999 for the component laws and WEEKDAY (thorough). non-trivial = compared with the reference; distinct = distinct formula.')
     ASSUMPTIONS = ('day differences (DAYS, DATEDIF "d") are judged for pairs on the same side of 1 March 1900 only (phantom 29 February of the serial system)',
-                   'DATEDIF units md/yd are not in the statement; arguments are numbers; WEEKDAY types are integers',
+                   'DATEDIF units md/yd are not in the statement; arguments are numbers; WEEKDAY types other than 1-3 include non-integers (2.5 is not a numbering)',
                    'whole-day serials are judged from 61 (1 March 1900) on')
 
     def plan(self, tier, seed):
@@ -174,7 +174,7 @@ class Check(FormulaCheck):
                 if not (strad and u.lower() == 'd'):
                     self.chk('DATEDIF-' + u.lower() + (':start-after-end' if a > b else '') + (jan1 if (u.lower() == 'd' and a <= b) else ''), 'DATEDIF(%s,%s,"%s")' % (A, B, u), exp)
             self.chk('DATEDIF-ym' + (':start-after-end' if a > b else ''), 'DATEDIF(%s,%s,"%s")' % (A, B, rnd.choice(['ym', 'YM'])), months % 12 if a <= b else 'ERR:#NUM!')
-            self.chk('WEEKDAY-other-type', 'WEEKDAY(%s,%s)' % (A, hx.lit(rnd.choice([0, 4, 5, 11, 17, -1, 10, 100]))), 'ERR:#NUM!')
+            self.chk('WEEKDAY-other-type', 'WEEKDAY(%s,%s)' % (A, hx.lit(rnd.choice([0, 4, 5, 11, 17, -1, 10, 100, 2.5, 1.5, 3.5, 3.999, 0.5, 1.0000001, 2.25, 0.999]))), 'ERR:#NUM!')
             k = rnd.choice([0, 1, -1, 11, -11, 12, -12, 13, -13, 1200, -1200, 120000, -120000, rnd.randint(-2000, 2000), rnd.randint(-120000, 120000), rnd.randint(-30, 30)])
             tot = a.year * 12 + (a.month - 1) + k
             y2, m2 = divmod(tot, 12)
